@@ -132,8 +132,8 @@ func init() {
 
 func init() {
 	register("C06", func(c *Ctx, r *Report) {
-		r.Decides("isInRange is the closed interval under all 13 orderings and isInRanges is ∃ with empty⇒true; string lengths are counted in characters and binary lengths in bytes; every pattern is checked with no early success; no sign-changing integer conversion and no byte/rune confusion in the validators and the pattern sanitizer.",
-			"XSD-vs-RE2 semantic equivalence of patterns; anchoring of patterns that start with '^' and contain alternation; decimal64 fraction-digits.")
+		r.Decides("isInRange is the closed interval under all 13 orderings and isInRanges is ∃ with empty⇒true; string lengths are counted in characters and binary lengths in bytes; every pattern is checked with no early success; no sign-changing integer conversion and no byte/rune confusion in the validators and the pattern sanitizer; the decimal64 number compared against the range is converted exactly (yang.FromFloat only as a fallback).",
+			"XSD-vs-RE2 semantic equivalence of patterns; anchoring of patterns that start with '^' and contain alternation; decimal64 fraction-digits; exactness of the float64 a caller passes in.")
 		ruleOrderEnum(c, r)
 		ruleLengthUnits(c, r)
 		rulePatternForall(c, r)
@@ -142,6 +142,7 @@ func init() {
 		ruleCacheKey(c, r)
 		ruleAnchorGroup(c, r)
 		ruleRegexpEscapeState(c, r)
+		ruleDecimalExact(c, r)
 	})
 	register("C07", func(c *Ctx, r *Report) {
 		r.Decides("every checker the property names is reachable from Validate through static calls; no validator loop silently skips an iteration; string lengths in characters; no sign-changing conversions in the validators.",
